@@ -2,6 +2,7 @@ SPECIFICATION Spec
 CONSTANTS MaxN = 2
           WrapperConsumes = FALSE
           ReleaseWakesWaiter = TRUE
+          SentinelOnlyIfEmpty = FALSE
           PauseCoversEncode = FALSE
 INVARIANT Export
 CHECK_DEADLOCK FALSE
